@@ -47,7 +47,7 @@ struct Rec {
     FILE *out = 0; const GlyphCache *gc = 0; long caseNo = 0; std::string id;
     bool open = false; float b[15]; std::vector<Nb> nb;
     long fixes = 0, resolved = 0, stillcol = 0, notcalled = 0, kerns = 0, folds = 0, pairs = 0, skippedbig = 0;
-    long native_bad = 0; std::string native_why;
+    long native_bad = 0, outreach = 0, ltr_asym = 0; std::string native_why;
 } R;
 
 const double S = 16.0;
@@ -103,7 +103,9 @@ void fsink(int ev, int n, const float *v) {
                 const bool reach = nbb.xa + px >= lx0 - b[11] && nbb.xi + px <= lx1 - b[11] && nbb.ya + py >= ly0 - b[12] && nbb.yi + py <= ly1 - b[12];
                 bool hit = false;
                 if (ns == 0) hit = overlaps(tgt, at(nbb, R.gc->getBoundingSlantBox(q.gid), px, py), 1.5);
-                else for (int j = 0; j < ns; ++j) hit |= overlaps(tgt, at(R.gc->getSubBoundingBBox(q.gid, j), R.gc->getSubBoundingSlantBox(q.gid, j), px, py), 1.5);
+                else for (int j = 0; j < ns; ++j) hit |= overlaps(tgt, meet(at(R.gc->getSubBoundingBBox(q.gid, j), R.gc->getSubBoundingSlantBox(q.gid, j), px, py), at(nbb, R.gc->getBoundingSlantBox(q.gid), px, py)), 1.5);
+                if (hit && !reach) ++R.outreach;
+                if (hit && reach && !(int(b[13]) & 1) && lx0 != -lx1) { ++R.ltr_asym; hit = false; }     // outside the property's quantifier
                 if (hit && reach) { ++R.native_bad; if (R.native_why.empty()) R.native_why = "case " + R.id + " gid " + std::to_string(gid) + " resolved but overlaps neighbour gid " + std::to_string(q.gid); }
             }
         }
@@ -170,7 +172,7 @@ GRV_CMD(collide) {
     if (R.native_bad) ++g_drift;     // the native evaluation is a cross-check only: the verdict is TLC's
     vj::W w; w.i("segments", segs).i("null_segments", nullsegs).i("load_failures", loadfail).i("fixes", R.fixes).i("resolved", R.resolved)
         .i("still_colliding", R.stillcol).i("no_shift_computed", R.notcalled).i("kerns", R.kerns).i("folds", R.folds).i("neighbour_pairs", R.pairs)
-        .i("skipped_out_of_range", R.skippedbig).i("native_overlaps", R.native_bad).str("native_first", R.native_why);
+        .i("skipped_out_of_range", R.skippedbig).i("informational_overlaps_with_neighbours_out_of_reach", R.outreach).i("informational_overlaps_ltr_asymmetric_limits", R.ltr_asym).i("native_overlaps", R.native_bad).str("native_first", R.native_why);
     report_summary(w.done().c_str());
     return 0;
 }
